@@ -420,23 +420,27 @@ Proof.
 Qed.
 
 (* ------------------------------------------------------------------ the theorems *)
-(* every non-empty legal walk of Figure 9 (any operands where the property does not constrain them, unknown
-   operators inside BX … EX) is accepted and yields exactly the documented tokens *)
+(* every legal walk of Figure 9 (any operands where the property does not constrain them, unknown operators
+   inside BX … EX; the empty stream included) is accepted and yields exactly the documented tokens *)
 Theorem extract_legal items :
-  items <> [] -> wf_items items = true -> legal_walk items = true ->
+  wf_items items = true -> legal_walk items = true ->
   extract (flatten items) = Ok (tokens_spec items).
-Proof. intros NE WF LG. unfold extract. apply (loop_legal items SContent 0 [] NE WF LG). Qed.
+Proof.
+  intros WF LG. destruct items as [|it r]; [reflexivity|].
+  assert (NE : it :: r <> []) by discriminate.
+  unfold extract. rewrite rest_case by (apply flatten_nonempty, NE).
+  apply (loop_legal (it :: r) SContent 0 [] NE WF LG).
+Qed.
 
 (* every stream with an operator not permitted at the current level, an unknown operator outside BX … EX, or a
    text-showing operator with the wrong number or kind of operands is rejected *)
 Theorem extract_illegal items :
   wf_items items = true -> illegal items = true -> exists k, extract (flatten items) = Err k.
-Proof. intros WF IL. unfold extract. apply (loop_illegal items SContent 0 [] WF IL). Qed.
-
-(* the empty stream (known finding C12-empty): a legal walk, rejected *)
-Lemma extract_refuted_empty :
-  exists items, wf_items items = true /\ legal_walk items = true /\ extract (flatten items) <> Ok (tokens_spec items).
-Proof. exists []. vm_compute. repeat split. discriminate. Qed.
+Proof.
+  intros WF IL. pose proof (illegal_nonempty _ _ _ IL) as NE.
+  unfold extract. rewrite rest_case by (apply flatten_nonempty, NE).
+  apply (loop_illegal items SContent 0 [] WF IL).
+Qed.
 
 (* the hypotheses are satisfiable, and the three kinds of rejection occur *)
 Example legal_example :
